@@ -221,7 +221,7 @@ pub fn run(ctx: &mut Ctx) {
     ctx.mark_exhaustive("all 256x256 (level, description) alerts as single-message records");
 
     // ------------------------------------------------ generated lists + predictable tails
-    let n = ctx.tier.pick(40_000, 400_000);
+    let n = ctx.tier.pick(160000, 1600000);
     ctx.family("lists", n, |ctx, case: &mut Case| {
         let r = &mut case.rng;
         let ct = *r.pick(&[0x14u8, 0x15, 0x16, 0x16, 0x16, 0x16, 0x18]);
@@ -252,7 +252,7 @@ pub fn run(ctx: &mut Ctx) {
     });
 
     // ------------------------------------------------ truncation of the payload
-    let n = ctx.tier.pick(6_000, 60_000);
+    let n = ctx.tier.pick(24000, 240000);
     ctx.family("truncation", n, |ctx, case: &mut Case| {
         let r = &mut case.rng;
         let ct = *r.pick(&[0x14u8, 0x15, 0x16, 0x16, 0x16, 0x17, 0x18]);
@@ -295,7 +295,7 @@ pub fn run(ctx: &mut Ctx) {
     });
 
     // ------------------------------------------------ first message malformed
-    let n = ctx.tier.pick(6_000, 60_000);
+    let n = ctx.tier.pick(24000, 240000);
     ctx.family("first-malformed", n, |ctx, case: &mut Case| {
         let r = &mut case.rng;
         let ct = *r.pick(&[0x14u8, 0x15, 0x16, 0x16]);
